@@ -102,6 +102,19 @@ def dump_instance(instance):
     )
 
 
+def dump_views(instance):
+    """The (cached) derived views as the instance object currently hands them out."""
+    return {
+        "operations_by_machine": [[op.operation_id for op in ops] for ops in instance.operations_by_machine],
+        "durations_matrix": [list(r) for r in instance.durations_matrix],
+        "machines_matrix": [[list(c) if isinstance(c, (list, tuple)) else c for c in r] for r in instance.machines_matrix],
+        "machine_loads": list(instance.machine_loads),
+        "job_durations": list(instance.job_durations),
+        "max_duration_per_machine": list(instance.max_duration_per_machine),
+        "num": (instance.num_jobs, instance.num_machines, instance.num_operations, instance.total_duration),
+    }
+
+
 # ---------------------------------------------------------------------------------------------
 # From-scratch recomputation of dispatcher queries and filter criteria (C05, C06, C07, C11)
 # ---------------------------------------------------------------------------------------------
